@@ -1,6 +1,6 @@
 (* C19 - property theorems only.  The fact table cli_options is regenerated from src/pyhf/cli/*.py on every run. *)
 From Coq Require Import String List.
-Require Import PV.Json PV.Cli PV.gen.FactsC19.
+Require Import PV.Sort PV.Json PV.Cli PV.gen.FactsC19 PV.gen.CliGen PV.TieCli.
 Import ListNotations.
 
 (* every declared option / argument of every subcommand is consumed by the command body *)
@@ -31,6 +31,420 @@ Proof. exact exit_iff_library_ok. Qed.
 Theorem C19_render_key_order_insensitive : forall dumps a b, wfj a -> wfj b -> jsame a b = true -> render dumps a = render dumps b.
 Proof. exact render_key_order_insensitive. Qed.
 
+
+(* --- tie to the source: the bodies of the click commands are TRANSLATED to PV.gen.CliGen on every run (harness/props/c19_tie.py); coq/TieCli.v
+   proves each translated command equal to Cli.run_cmd of a hand-written library composition (or to an explicit outcome), for ALL meanings of the
+   opaque library functions: which function, which arguments, in which order (relative to patching and to set_backend), what goes to the file / stdout.
+   cli/spec.py:inspect is not translated. --- *)
+Local Open Scope list_scope.
+Local Open Scope string_scope.
+(* fit: --backend, then --optimizer/--optconf on the tensorlib current then, then the workspace, the PATCHED model, the data of that model, the fit; what is printed or dumped is the fit result *)
+Theorem C19_source_is_model_fit :
+  forall (E B TL Opt OptCls Conf Model Data Tensor FitR PSpec Slice P PS Patch Mount : Type) (newline : string) (dumps : json -> string)
+           (show_nat : nat -> string) (type_error : E) (read_json : string -> res E json) (mkws : json -> res E json)
+           (ws_prune : json -> list string -> list string -> list string -> list string -> list string -> res E json)
+           (ws_rename : json -> list (string * string) -> list (string * string) -> list (string * string) -> list (string * string) -> res E json)
+           (ws_combine : json -> json -> string -> bool -> res E json) (ws_sorted : json -> res E json) (digest : json -> string -> res E string)
+           (set_backend_named : B -> string -> option string -> B) (set_backend_obj : B -> TL -> Opt -> B) (get_tensorlib : B -> TL)
+           (dict_union : list Conf -> Conf) (get_optimizer : string -> option OptCls) (make_optimizer : OptCls -> Conf -> res E Opt)
+           (ws_model : B -> json -> option string -> option (list json) -> option json -> res E Model) (ws_data : B -> json -> Model -> res E Data)
+           (mle_fit : B -> Data -> Model -> bool -> res E FitR) (fit_as_tensor fit_first fit_last : FitR -> Tensor)
+           (par_map : Model -> list (string * PSpec)) (ps_slice : PSpec -> Slice) (tensor_slice : Tensor -> Slice -> Tensor)
+           (tolist : TL -> Tensor -> json) (hypotest : B -> P -> Data -> Model -> string -> string -> res E (Tensor * list Tensor))
+           (mkps : json -> res E PS) (ps_getitem : PS -> option string -> res E Patch) (patch_metadata patch_ops : Patch -> json)
+           (ps_metadata : PS -> json) (jupdate : json -> json -> json) (ps_apply : PS -> json -> option string -> res E json)
+           (ps_verify : PS -> json -> res E unit) (ps_patches : PS -> list Patch) (patch_name : Patch -> string)
+           (xml_parse : string -> string -> list Mount -> bool -> bool -> res E json) (path_join : string -> string -> string)
+           (jsonpatch_apply : json -> json -> res E json) (writexml : json -> string -> string -> string -> res E string) (workspace : string)
+           (output_file measurement : option string) (patch : list string) (value : bool) (backend optimizer : string) (optconf : list Conf) 
+           (bk : B),
+         outcome_of
+           (gen_cli_fit E B TL Opt OptCls Conf Model Data Tensor FitR PSpec Slice P PS Patch Mount newline dumps show_nat type_error read_json mkws
+              ws_prune ws_rename ws_combine ws_sorted digest set_backend_named set_backend_obj get_tensorlib dict_union get_optimizer make_optimizer
+              ws_model ws_data mle_fit fit_as_tensor fit_first fit_last par_map ps_slice tensor_slice tolist hypotest mkps ps_getitem patch_metadata
+              patch_ops ps_metadata jupdate ps_apply ps_verify ps_patches patch_name xml_parse path_join jsonpatch_apply writexml workspace output_file
+              measurement patch value backend optimizer optconf bk) =
+         run_cmd dumps newline (string * option string * list string * bool * string * string * list Conf) E
+           (library_fit E B TL Opt OptCls Conf Model Data Tensor FitR PSpec Slice type_error read_json mkws set_backend_named set_backend_obj
+              get_tensorlib dict_union get_optimizer make_optimizer ws_model ws_data mle_fit fit_as_tensor fit_first fit_last par_map ps_slice
+              tensor_slice tolist bk) (workspace, measurement, patch, value, backend, optimizer, optconf) output_file.
+Proof. exact tie_cli_fit. Qed.
+(* cls: the patched model first (code4 / code4p), then backend and optimizer, then the data of that model and hypotest at the POI exactly as given *)
+Theorem C19_source_is_model_cls :
+  forall (E B TL Opt OptCls Conf Model Data Tensor FitR PSpec Slice P PS Patch Mount : Type) (newline : string) (dumps : json -> string)
+           (show_nat : nat -> string) (type_error : E) (read_json : string -> res E json) (mkws : json -> res E json)
+           (ws_prune : json -> list string -> list string -> list string -> list string -> list string -> res E json)
+           (ws_rename : json -> list (string * string) -> list (string * string) -> list (string * string) -> list (string * string) -> res E json)
+           (ws_combine : json -> json -> string -> bool -> res E json) (ws_sorted : json -> res E json) (digest : json -> string -> res E string)
+           (set_backend_named : B -> string -> option string -> B) (set_backend_obj : B -> TL -> Opt -> B) (get_tensorlib : B -> TL)
+           (dict_union : list Conf -> Conf) (get_optimizer : string -> option OptCls) (make_optimizer : OptCls -> Conf -> res E Opt)
+           (ws_model : B -> json -> option string -> option (list json) -> option json -> res E Model) (ws_data : B -> json -> Model -> res E Data)
+           (mle_fit : B -> Data -> Model -> bool -> res E FitR) (fit_as_tensor fit_first fit_last : FitR -> Tensor)
+           (par_map : Model -> list (string * PSpec)) (ps_slice : PSpec -> Slice) (tensor_slice : Tensor -> Slice -> Tensor)
+           (tolist : TL -> Tensor -> json) (hypotest : B -> P -> Data -> Model -> string -> string -> res E (Tensor * list Tensor))
+           (mkps : json -> res E PS) (ps_getitem : PS -> option string -> res E Patch) (patch_metadata patch_ops : Patch -> json)
+           (ps_metadata : PS -> json) (jupdate : json -> json -> json) (ps_apply : PS -> json -> option string -> res E json)
+           (ps_verify : PS -> json -> res E unit) (ps_patches : PS -> list Patch) (patch_name : Patch -> string)
+           (xml_parse : string -> string -> list Mount -> bool -> bool -> res E json) (path_join : string -> string -> string)
+           (jsonpatch_apply : json -> json -> res E json) (writexml : json -> string -> string -> string -> res E string) (workspace : string)
+           (output_file measurement : option string) (patch : list string) (test_poi : P) (test_stat backend optimizer calctype : string)
+           (optconf : list Conf) (bk : B),
+         outcome_of
+           (gen_cli_cls E B TL Opt OptCls Conf Model Data Tensor FitR PSpec Slice P PS Patch Mount newline dumps show_nat type_error read_json mkws
+              ws_prune ws_rename ws_combine ws_sorted digest set_backend_named set_backend_obj get_tensorlib dict_union get_optimizer make_optimizer
+              ws_model ws_data mle_fit fit_as_tensor fit_first fit_last par_map ps_slice tensor_slice tolist hypotest mkps ps_getitem patch_metadata
+              patch_ops ps_metadata jupdate ps_apply ps_verify ps_patches patch_name xml_parse path_join jsonpatch_apply writexml workspace output_file
+              measurement patch test_poi test_stat backend optimizer calctype optconf bk) =
+         run_cmd dumps newline (string * option string * list string * P * string * string * string * string * list Conf) E
+           (library_cls E B TL Opt OptCls Conf Model Data Tensor P type_error read_json mkws set_backend_named set_backend_obj get_tensorlib dict_union
+              get_optimizer make_optimizer ws_model ws_data tolist hypotest bk)
+           (workspace, measurement, patch, test_poi, test_stat, backend, optimizer, calctype, optconf) output_file.
+Proof. exact tie_cli_cls. Qed.
+(* prune *)
+Theorem C19_source_is_model_prune :
+  forall (E B TL Opt OptCls Conf Model Data Tensor FitR PSpec Slice P PS Patch Mount : Type) (newline : string) (dumps : json -> string)
+           (show_nat : nat -> string) (type_error : E) (read_json : string -> res E json) (mkws : json -> res E json)
+           (ws_prune : json -> list string -> list string -> list string -> list string -> list string -> res E json)
+           (ws_rename : json -> list (string * string) -> list (string * string) -> list (string * string) -> list (string * string) -> res E json)
+           (ws_combine : json -> json -> string -> bool -> res E json) (ws_sorted : json -> res E json) (digest : json -> string -> res E string)
+           (set_backend_named : B -> string -> option string -> B) (set_backend_obj : B -> TL -> Opt -> B) (get_tensorlib : B -> TL)
+           (dict_union : list Conf -> Conf) (get_optimizer : string -> option OptCls) (make_optimizer : OptCls -> Conf -> res E Opt)
+           (ws_model : B -> json -> option string -> option (list json) -> option json -> res E Model) (ws_data : B -> json -> Model -> res E Data)
+           (mle_fit : B -> Data -> Model -> bool -> res E FitR) (fit_as_tensor fit_first fit_last : FitR -> Tensor)
+           (par_map : Model -> list (string * PSpec)) (ps_slice : PSpec -> Slice) (tensor_slice : Tensor -> Slice -> Tensor)
+           (tolist : TL -> Tensor -> json) (hypotest : B -> P -> Data -> Model -> string -> string -> res E (Tensor * list Tensor))
+           (mkps : json -> res E PS) (ps_getitem : PS -> option string -> res E Patch) (patch_metadata patch_ops : Patch -> json)
+           (ps_metadata : PS -> json) (jupdate : json -> json -> json) (ps_apply : PS -> json -> option string -> res E json)
+           (ps_verify : PS -> json -> res E unit) (ps_patches : PS -> list Patch) (patch_name : Patch -> string)
+           (xml_parse : string -> string -> list Mount -> bool -> bool -> res E json) (path_join : string -> string -> string)
+           (jsonpatch_apply : json -> json -> res E json) (writexml : json -> string -> string -> string -> res E string) (workspace : string)
+           (output_file : option string) (channel sample modifier modifier_type measurement : list string) (bk : B),
+         outcome_of
+           (gen_cli_prune E B TL Opt OptCls Conf Model Data Tensor FitR PSpec Slice P PS Patch Mount newline dumps show_nat type_error read_json mkws
+              ws_prune ws_rename ws_combine ws_sorted digest set_backend_named set_backend_obj get_tensorlib dict_union get_optimizer make_optimizer
+              ws_model ws_data mle_fit fit_as_tensor fit_first fit_last par_map ps_slice tensor_slice tolist hypotest mkps ps_getitem patch_metadata
+              patch_ops ps_metadata jupdate ps_apply ps_verify ps_patches patch_name xml_parse path_join jsonpatch_apply writexml workspace output_file
+              channel sample modifier modifier_type measurement bk) =
+         run_cmd dumps newline (string * list string * list string * list string * list string * list string) E
+           (library_prune E read_json mkws ws_prune) (workspace, channel, sample, modifier, modifier_type, measurement) output_file.
+Proof. exact tie_cli_prune. Qed.
+(* rename: each repeatable PATTERN REPLACE option becomes a dict (a later pair for the same pattern wins) *)
+Theorem C19_source_is_model_rename :
+  forall (E B TL Opt OptCls Conf Model Data Tensor FitR PSpec Slice P PS Patch Mount : Type) (newline : string) (dumps : json -> string)
+           (show_nat : nat -> string) (type_error : E) (read_json : string -> res E json) (mkws : json -> res E json)
+           (ws_prune : json -> list string -> list string -> list string -> list string -> list string -> res E json)
+           (ws_rename : json -> list (string * string) -> list (string * string) -> list (string * string) -> list (string * string) -> res E json)
+           (ws_combine : json -> json -> string -> bool -> res E json) (ws_sorted : json -> res E json) (digest : json -> string -> res E string)
+           (set_backend_named : B -> string -> option string -> B) (set_backend_obj : B -> TL -> Opt -> B) (get_tensorlib : B -> TL)
+           (dict_union : list Conf -> Conf) (get_optimizer : string -> option OptCls) (make_optimizer : OptCls -> Conf -> res E Opt)
+           (ws_model : B -> json -> option string -> option (list json) -> option json -> res E Model) (ws_data : B -> json -> Model -> res E Data)
+           (mle_fit : B -> Data -> Model -> bool -> res E FitR) (fit_as_tensor fit_first fit_last : FitR -> Tensor)
+           (par_map : Model -> list (string * PSpec)) (ps_slice : PSpec -> Slice) (tensor_slice : Tensor -> Slice -> Tensor)
+           (tolist : TL -> Tensor -> json) (hypotest : B -> P -> Data -> Model -> string -> string -> res E (Tensor * list Tensor))
+           (mkps : json -> res E PS) (ps_getitem : PS -> option string -> res E Patch) (patch_metadata patch_ops : Patch -> json)
+           (ps_metadata : PS -> json) (jupdate : json -> json -> json) (ps_apply : PS -> json -> option string -> res E json)
+           (ps_verify : PS -> json -> res E unit) (ps_patches : PS -> list Patch) (patch_name : Patch -> string)
+           (xml_parse : string -> string -> list Mount -> bool -> bool -> res E json) (path_join : string -> string -> string)
+           (jsonpatch_apply : json -> json -> res E json) (writexml : json -> string -> string -> string -> res E string) (workspace : string)
+           (output_file : option string) (channel sample modifier measurement : list (string * string)) (bk : B),
+         outcome_of
+           (gen_cli_rename E B TL Opt OptCls Conf Model Data Tensor FitR PSpec Slice P PS Patch Mount newline dumps show_nat type_error read_json mkws
+              ws_prune ws_rename ws_combine ws_sorted digest set_backend_named set_backend_obj get_tensorlib dict_union get_optimizer make_optimizer
+              ws_model ws_data mle_fit fit_as_tensor fit_first fit_last par_map ps_slice tensor_slice tolist hypotest mkps ps_getitem patch_metadata
+              patch_ops ps_metadata jupdate ps_apply ps_verify ps_patches patch_name xml_parse path_join jsonpatch_apply writexml workspace output_file
+              channel sample modifier measurement bk) =
+         run_cmd dumps newline (string * list (string * string) * list (string * string) * list (string * string) * list (string * string)) E
+           (library_rename E read_json mkws ws_rename) (workspace, channel, sample, modifier, measurement) output_file.
+Proof. exact tie_cli_rename. Qed.
+(* combine: both files are read before either is validated *)
+Theorem C19_source_is_model_combine :
+  forall (E B TL Opt OptCls Conf Model Data Tensor FitR PSpec Slice P PS Patch Mount : Type) (newline : string) (dumps : json -> string)
+           (show_nat : nat -> string) (type_error : E) (read_json : string -> res E json) (mkws : json -> res E json)
+           (ws_prune : json -> list string -> list string -> list string -> list string -> list string -> res E json)
+           (ws_rename : json -> list (string * string) -> list (string * string) -> list (string * string) -> list (string * string) -> res E json)
+           (ws_combine : json -> json -> string -> bool -> res E json) (ws_sorted : json -> res E json) (digest : json -> string -> res E string)
+           (set_backend_named : B -> string -> option string -> B) (set_backend_obj : B -> TL -> Opt -> B) (get_tensorlib : B -> TL)
+           (dict_union : list Conf -> Conf) (get_optimizer : string -> option OptCls) (make_optimizer : OptCls -> Conf -> res E Opt)
+           (ws_model : B -> json -> option string -> option (list json) -> option json -> res E Model) (ws_data : B -> json -> Model -> res E Data)
+           (mle_fit : B -> Data -> Model -> bool -> res E FitR) (fit_as_tensor fit_first fit_last : FitR -> Tensor)
+           (par_map : Model -> list (string * PSpec)) (ps_slice : PSpec -> Slice) (tensor_slice : Tensor -> Slice -> Tensor)
+           (tolist : TL -> Tensor -> json) (hypotest : B -> P -> Data -> Model -> string -> string -> res E (Tensor * list Tensor))
+           (mkps : json -> res E PS) (ps_getitem : PS -> option string -> res E Patch) (patch_metadata patch_ops : Patch -> json)
+           (ps_metadata : PS -> json) (jupdate : json -> json -> json) (ps_apply : PS -> json -> option string -> res E json)
+           (ps_verify : PS -> json -> res E unit) (ps_patches : PS -> list Patch) (patch_name : Patch -> string)
+           (xml_parse : string -> string -> list Mount -> bool -> bool -> res E json) (path_join : string -> string -> string)
+           (jsonpatch_apply : json -> json -> res E json) (writexml : json -> string -> string -> string -> res E string)
+           (workspace_one workspace_two join : string) (output_file : option string) (merge_channels : bool) (bk : B),
+         outcome_of
+           (gen_cli_combine E B TL Opt OptCls Conf Model Data Tensor FitR PSpec Slice P PS Patch Mount newline dumps show_nat type_error read_json mkws
+              ws_prune ws_rename ws_combine ws_sorted digest set_backend_named set_backend_obj get_tensorlib dict_union get_optimizer make_optimizer
+              ws_model ws_data mle_fit fit_as_tensor fit_first fit_last par_map ps_slice tensor_slice tolist hypotest mkps ps_getitem patch_metadata
+              patch_ops ps_metadata jupdate ps_apply ps_verify ps_patches patch_name xml_parse path_join jsonpatch_apply writexml workspace_one
+              workspace_two join output_file merge_channels bk) =
+         run_cmd dumps newline (string * string * string * bool) E (library_combine E read_json mkws ws_combine)
+           (workspace_one, workspace_two, join, merge_channels) output_file.
+Proof. exact tie_cli_combine. Qed.
+(* digest: one digest per algorithm in order; --json a sorted JSON object, otherwise algorithm:digest lines *)
+Theorem C19_source_is_model_digest :
+  forall (E B TL Opt OptCls Conf Model Data Tensor FitR PSpec Slice P PS Patch Mount : Type) (newline : string) (dumps : json -> string)
+           (show_nat : nat -> string) (type_error : E) (read_json : string -> res E json) (mkws : json -> res E json)
+           (ws_prune : json -> list string -> list string -> list string -> list string -> list string -> res E json)
+           (ws_rename : json -> list (string * string) -> list (string * string) -> list (string * string) -> list (string * string) -> res E json)
+           (ws_combine : json -> json -> string -> bool -> res E json) (ws_sorted : json -> res E json) (digest : json -> string -> res E string)
+           (set_backend_named : B -> string -> option string -> B) (set_backend_obj : B -> TL -> Opt -> B) (get_tensorlib : B -> TL)
+           (dict_union : list Conf -> Conf) (get_optimizer : string -> option OptCls) (make_optimizer : OptCls -> Conf -> res E Opt)
+           (ws_model : B -> json -> option string -> option (list json) -> option json -> res E Model) (ws_data : B -> json -> Model -> res E Data)
+           (mle_fit : B -> Data -> Model -> bool -> res E FitR) (fit_as_tensor fit_first fit_last : FitR -> Tensor)
+           (par_map : Model -> list (string * PSpec)) (ps_slice : PSpec -> Slice) (tensor_slice : Tensor -> Slice -> Tensor)
+           (tolist : TL -> Tensor -> json) (hypotest : B -> P -> Data -> Model -> string -> string -> res E (Tensor * list Tensor))
+           (mkps : json -> res E PS) (ps_getitem : PS -> option string -> res E Patch) (patch_metadata patch_ops : Patch -> json)
+           (ps_metadata : PS -> json) (jupdate : json -> json -> json) (ps_apply : PS -> json -> option string -> res E json)
+           (ps_verify : PS -> json -> res E unit) (ps_patches : PS -> list Patch) (patch_name : Patch -> string)
+           (xml_parse : string -> string -> list Mount -> bool -> bool -> res E json) (path_join : string -> string -> string)
+           (jsonpatch_apply : json -> json -> res E json) (writexml : json -> string -> string -> string -> res E string) (workspace : string)
+           (algorithm : list string) (output_json : bool) (bk : B),
+         outcome_of
+           (gen_cli_digest E B TL Opt OptCls Conf Model Data Tensor FitR PSpec Slice P PS Patch Mount newline dumps show_nat type_error read_json mkws
+              ws_prune ws_rename ws_combine ws_sorted digest set_backend_named set_backend_obj get_tensorlib dict_union get_optimizer make_optimizer
+              ws_model ws_data mle_fit fit_as_tensor fit_first fit_last par_map ps_slice tensor_slice tolist hypotest mkps ps_getitem patch_metadata
+              patch_ops ps_metadata jupdate ps_apply ps_verify ps_patches patch_name xml_parse path_join jsonpatch_apply writexml workspace algorithm
+              output_json bk) =
+         match library_digests E read_json mkws digest (workspace, algorithm) with
+         | Ok ds =>
+             if output_json
+             then emit dumps newline None (JObj (map (fun kv : string * string => (fst kv, JStr (snd kv))) ds))
+             else
+              {|
+                exit_code := 0; stdout := String.concat newline (map (fun kv : string * string => fst kv ++ ":" ++ snd kv) ds) ++ newline; files := []
+              |}
+         | Err _ => {| exit_code := 1; stdout := ""; files := [] |}
+         end.
+Proof. exact tie_cli_digest. Qed.
+(* sort: the SORTED workspace is what is printed and what is dumped *)
+Theorem C19_source_is_model_sort :
+  forall (E B TL Opt OptCls Conf Model Data Tensor FitR PSpec Slice P PS Patch Mount : Type) (newline : string) (dumps : json -> string)
+           (show_nat : nat -> string) (type_error : E) (read_json : string -> res E json) (mkws : json -> res E json)
+           (ws_prune : json -> list string -> list string -> list string -> list string -> list string -> res E json)
+           (ws_rename : json -> list (string * string) -> list (string * string) -> list (string * string) -> list (string * string) -> res E json)
+           (ws_combine : json -> json -> string -> bool -> res E json) (ws_sorted : json -> res E json) (digest : json -> string -> res E string)
+           (set_backend_named : B -> string -> option string -> B) (set_backend_obj : B -> TL -> Opt -> B) (get_tensorlib : B -> TL)
+           (dict_union : list Conf -> Conf) (get_optimizer : string -> option OptCls) (make_optimizer : OptCls -> Conf -> res E Opt)
+           (ws_model : B -> json -> option string -> option (list json) -> option json -> res E Model) (ws_data : B -> json -> Model -> res E Data)
+           (mle_fit : B -> Data -> Model -> bool -> res E FitR) (fit_as_tensor fit_first fit_last : FitR -> Tensor)
+           (par_map : Model -> list (string * PSpec)) (ps_slice : PSpec -> Slice) (tensor_slice : Tensor -> Slice -> Tensor)
+           (tolist : TL -> Tensor -> json) (hypotest : B -> P -> Data -> Model -> string -> string -> res E (Tensor * list Tensor))
+           (mkps : json -> res E PS) (ps_getitem : PS -> option string -> res E Patch) (patch_metadata patch_ops : Patch -> json)
+           (ps_metadata : PS -> json) (jupdate : json -> json -> json) (ps_apply : PS -> json -> option string -> res E json)
+           (ps_verify : PS -> json -> res E unit) (ps_patches : PS -> list Patch) (patch_name : Patch -> string)
+           (xml_parse : string -> string -> list Mount -> bool -> bool -> res E json) (path_join : string -> string -> string)
+           (jsonpatch_apply : json -> json -> res E json) (writexml : json -> string -> string -> string -> res E string) (workspace : string)
+           (output_file : option string) (bk : B),
+         outcome_of
+           (gen_cli_sort E B TL Opt OptCls Conf Model Data Tensor FitR PSpec Slice P PS Patch Mount newline dumps show_nat type_error read_json mkws
+              ws_prune ws_rename ws_combine ws_sorted digest set_backend_named set_backend_obj get_tensorlib dict_union get_optimizer make_optimizer
+              ws_model ws_data mle_fit fit_as_tensor fit_first fit_last par_map ps_slice tensor_slice tolist hypotest mkps ps_getitem patch_metadata
+              patch_ops ps_metadata jupdate ps_apply ps_verify ps_patches patch_name xml_parse path_join jsonpatch_apply writexml workspace output_file
+              bk) = run_cmd dumps newline string E (library_sort E read_json mkws ws_sorted) workspace output_file.
+Proof. exact tie_cli_sort. Qed.
+(* patchset extract (a file is written only for a non-empty --output-file) *)
+Theorem C19_source_is_model_patchset_extract :
+  forall (E B TL Opt OptCls Conf Model Data Tensor FitR PSpec Slice P PS Patch Mount : Type) (newline : string) (dumps : json -> string)
+           (show_nat : nat -> string) (type_error : E) (read_json : string -> res E json) (mkws : json -> res E json)
+           (ws_prune : json -> list string -> list string -> list string -> list string -> list string -> res E json)
+           (ws_rename : json -> list (string * string) -> list (string * string) -> list (string * string) -> list (string * string) -> res E json)
+           (ws_combine : json -> json -> string -> bool -> res E json) (ws_sorted : json -> res E json) (digest : json -> string -> res E string)
+           (set_backend_named : B -> string -> option string -> B) (set_backend_obj : B -> TL -> Opt -> B) (get_tensorlib : B -> TL)
+           (dict_union : list Conf -> Conf) (get_optimizer : string -> option OptCls) (make_optimizer : OptCls -> Conf -> res E Opt)
+           (ws_model : B -> json -> option string -> option (list json) -> option json -> res E Model) (ws_data : B -> json -> Model -> res E Data)
+           (mle_fit : B -> Data -> Model -> bool -> res E FitR) (fit_as_tensor fit_first fit_last : FitR -> Tensor)
+           (par_map : Model -> list (string * PSpec)) (ps_slice : PSpec -> Slice) (tensor_slice : Tensor -> Slice -> Tensor)
+           (tolist : TL -> Tensor -> json) (hypotest : B -> P -> Data -> Model -> string -> string -> res E (Tensor * list Tensor))
+           (mkps : json -> res E PS) (ps_getitem : PS -> option string -> res E Patch) (patch_metadata patch_ops : Patch -> json)
+           (ps_metadata : PS -> json) (jupdate : json -> json -> json) (ps_apply : PS -> json -> option string -> res E json)
+           (ps_verify : PS -> json -> res E unit) (ps_patches : PS -> list Patch) (patch_name : Patch -> string)
+           (xml_parse : string -> string -> list Mount -> bool -> bool -> res E json) (path_join : string -> string -> string)
+           (jsonpatch_apply : json -> json -> res E json) (writexml : json -> string -> string -> string -> res E string) (patchset : string)
+           (name output_file : option string) (with_metadata : bool) (bk : B),
+         outcome_of
+           (gen_cli_patchset_extract E B TL Opt OptCls Conf Model Data Tensor FitR PSpec Slice P PS Patch Mount newline dumps show_nat type_error
+              read_json mkws ws_prune ws_rename ws_combine ws_sorted digest set_backend_named set_backend_obj get_tensorlib dict_union get_optimizer
+              make_optimizer ws_model ws_data mle_fit fit_as_tensor fit_first fit_last par_map ps_slice tensor_slice tolist hypotest mkps ps_getitem
+              patch_metadata patch_ops ps_metadata jupdate ps_apply ps_verify ps_patches patch_name xml_parse path_join jsonpatch_apply writexml
+              patchset name output_file with_metadata bk) =
+         run_cmd dumps newline (string * option string * bool) E
+           (library_extract E PS Patch read_json mkps ps_getitem patch_metadata patch_ops ps_metadata jupdate) (patchset, name, with_metadata)
+           (truthy output_file).
+Proof. exact tie_cli_patchset_extract. Qed.
+(* patchset apply: PatchSet.apply (which verifies the digests) on the validated background-only workspace *)
+Theorem C19_source_is_model_patchset_apply :
+  forall (E B TL Opt OptCls Conf Model Data Tensor FitR PSpec Slice P PS Patch Mount : Type) (newline : string) (dumps : json -> string)
+           (show_nat : nat -> string) (type_error : E) (read_json : string -> res E json) (mkws : json -> res E json)
+           (ws_prune : json -> list string -> list string -> list string -> list string -> list string -> res E json)
+           (ws_rename : json -> list (string * string) -> list (string * string) -> list (string * string) -> list (string * string) -> res E json)
+           (ws_combine : json -> json -> string -> bool -> res E json) (ws_sorted : json -> res E json) (digest : json -> string -> res E string)
+           (set_backend_named : B -> string -> option string -> B) (set_backend_obj : B -> TL -> Opt -> B) (get_tensorlib : B -> TL)
+           (dict_union : list Conf -> Conf) (get_optimizer : string -> option OptCls) (make_optimizer : OptCls -> Conf -> res E Opt)
+           (ws_model : B -> json -> option string -> option (list json) -> option json -> res E Model) (ws_data : B -> json -> Model -> res E Data)
+           (mle_fit : B -> Data -> Model -> bool -> res E FitR) (fit_as_tensor fit_first fit_last : FitR -> Tensor)
+           (par_map : Model -> list (string * PSpec)) (ps_slice : PSpec -> Slice) (tensor_slice : Tensor -> Slice -> Tensor)
+           (tolist : TL -> Tensor -> json) (hypotest : B -> P -> Data -> Model -> string -> string -> res E (Tensor * list Tensor))
+           (mkps : json -> res E PS) (ps_getitem : PS -> option string -> res E Patch) (patch_metadata patch_ops : Patch -> json)
+           (ps_metadata : PS -> json) (jupdate : json -> json -> json) (ps_apply : PS -> json -> option string -> res E json)
+           (ps_verify : PS -> json -> res E unit) (ps_patches : PS -> list Patch) (patch_name : Patch -> string)
+           (xml_parse : string -> string -> list Mount -> bool -> bool -> res E json) (path_join : string -> string -> string)
+           (jsonpatch_apply : json -> json -> res E json) (writexml : json -> string -> string -> string -> res E string)
+           (background_only patchset : string) (name output_file : option string) (bk : B),
+         outcome_of
+           (gen_cli_patchset_apply E B TL Opt OptCls Conf Model Data Tensor FitR PSpec Slice P PS Patch Mount newline dumps show_nat type_error
+              read_json mkws ws_prune ws_rename ws_combine ws_sorted digest set_backend_named set_backend_obj get_tensorlib dict_union get_optimizer
+              make_optimizer ws_model ws_data mle_fit fit_as_tensor fit_first fit_last par_map ps_slice tensor_slice tolist hypotest mkps ps_getitem
+              patch_metadata patch_ops ps_metadata jupdate ps_apply ps_verify ps_patches patch_name xml_parse path_join jsonpatch_apply writexml
+              background_only patchset name output_file bk) =
+         run_cmd dumps newline (string * string * option string) E (library_apply E PS read_json mkws mkps ps_apply) (background_only, patchset, name)
+           (truthy output_file).
+Proof. exact tie_cli_patchset_apply. Qed.
+(* patchset verify *)
+Theorem C19_source_is_model_patchset_verify :
+  forall (E B TL Opt OptCls Conf Model Data Tensor FitR PSpec Slice P PS Patch Mount : Type) (newline : string) (dumps : json -> string)
+           (show_nat : nat -> string) (type_error : E) (read_json : string -> res E json) (mkws : json -> res E json)
+           (ws_prune : json -> list string -> list string -> list string -> list string -> list string -> res E json)
+           (ws_rename : json -> list (string * string) -> list (string * string) -> list (string * string) -> list (string * string) -> res E json)
+           (ws_combine : json -> json -> string -> bool -> res E json) (ws_sorted : json -> res E json) (digest : json -> string -> res E string)
+           (set_backend_named : B -> string -> option string -> B) (set_backend_obj : B -> TL -> Opt -> B) (get_tensorlib : B -> TL)
+           (dict_union : list Conf -> Conf) (get_optimizer : string -> option OptCls) (make_optimizer : OptCls -> Conf -> res E Opt)
+           (ws_model : B -> json -> option string -> option (list json) -> option json -> res E Model) (ws_data : B -> json -> Model -> res E Data)
+           (mle_fit : B -> Data -> Model -> bool -> res E FitR) (fit_as_tensor fit_first fit_last : FitR -> Tensor)
+           (par_map : Model -> list (string * PSpec)) (ps_slice : PSpec -> Slice) (tensor_slice : Tensor -> Slice -> Tensor)
+           (tolist : TL -> Tensor -> json) (hypotest : B -> P -> Data -> Model -> string -> string -> res E (Tensor * list Tensor))
+           (mkps : json -> res E PS) (ps_getitem : PS -> option string -> res E Patch) (patch_metadata patch_ops : Patch -> json)
+           (ps_metadata : PS -> json) (jupdate : json -> json -> json) (ps_apply : PS -> json -> option string -> res E json)
+           (ps_verify : PS -> json -> res E unit) (ps_patches : PS -> list Patch) (patch_name : Patch -> string)
+           (xml_parse : string -> string -> list Mount -> bool -> bool -> res E json) (path_join : string -> string -> string)
+           (jsonpatch_apply : json -> json -> res E json) (writexml : json -> string -> string -> string -> res E string)
+           (background_only patchset : string) (bk : B),
+         outcome_of
+           (gen_cli_patchset_verify E B TL Opt OptCls Conf Model Data Tensor FitR PSpec Slice P PS Patch Mount newline dumps show_nat type_error
+              read_json mkws ws_prune ws_rename ws_combine ws_sorted digest set_backend_named set_backend_obj get_tensorlib dict_union get_optimizer
+              make_optimizer ws_model ws_data mle_fit fit_as_tensor fit_first fit_last par_map ps_slice tensor_slice tolist hypotest mkps ps_getitem
+              patch_metadata patch_ops ps_metadata jupdate ps_apply ps_verify ps_patches patch_name xml_parse path_join jsonpatch_apply writexml
+              background_only patchset bk) =
+         match library_verify E PS read_json mkws mkps ps_verify (background_only, patchset) with
+         | Ok _ => {| exit_code := 0; stdout := "All good." ++ newline; files := [] |}
+         | Err _ => {| exit_code := 1; stdout := ""; files := [] |}
+         end.
+Proof. exact tie_cli_patchset_verify. Qed.
+(* patchset inspect *)
+Theorem C19_source_is_model_patchset_inspect :
+  forall (E B TL Opt OptCls Conf Model Data Tensor FitR PSpec Slice P PS Patch Mount : Type) (newline : string) (dumps : json -> string)
+           (show_nat : nat -> string) (type_error : E) (read_json : string -> res E json) (mkws : json -> res E json)
+           (ws_prune : json -> list string -> list string -> list string -> list string -> list string -> res E json)
+           (ws_rename : json -> list (string * string) -> list (string * string) -> list (string * string) -> list (string * string) -> res E json)
+           (ws_combine : json -> json -> string -> bool -> res E json) (ws_sorted : json -> res E json) (digest : json -> string -> res E string)
+           (set_backend_named : B -> string -> option string -> B) (set_backend_obj : B -> TL -> Opt -> B) (get_tensorlib : B -> TL)
+           (dict_union : list Conf -> Conf) (get_optimizer : string -> option OptCls) (make_optimizer : OptCls -> Conf -> res E Opt)
+           (ws_model : B -> json -> option string -> option (list json) -> option json -> res E Model) (ws_data : B -> json -> Model -> res E Data)
+           (mle_fit : B -> Data -> Model -> bool -> res E FitR) (fit_as_tensor fit_first fit_last : FitR -> Tensor)
+           (par_map : Model -> list (string * PSpec)) (ps_slice : PSpec -> Slice) (tensor_slice : Tensor -> Slice -> Tensor)
+           (tolist : TL -> Tensor -> json) (hypotest : B -> P -> Data -> Model -> string -> string -> res E (Tensor * list Tensor))
+           (mkps : json -> res E PS) (ps_getitem : PS -> option string -> res E Patch) (patch_metadata patch_ops : Patch -> json)
+           (ps_metadata : PS -> json) (jupdate : json -> json -> json) (ps_apply : PS -> json -> option string -> res E json)
+           (ps_verify : PS -> json -> res E unit) (ps_patches : PS -> list Patch) (patch_name : Patch -> string)
+           (xml_parse : string -> string -> list Mount -> bool -> bool -> res E json) (path_join : string -> string -> string)
+           (jsonpatch_apply : json -> json -> res E json) (writexml : json -> string -> string -> string -> res E string) (patchset : string) 
+           (bk : B),
+         outcome_of
+           (gen_cli_patchset_inspect E B TL Opt OptCls Conf Model Data Tensor FitR PSpec Slice P PS Patch Mount newline dumps show_nat type_error
+              read_json mkws ws_prune ws_rename ws_combine ws_sorted digest set_backend_named set_backend_obj get_tensorlib dict_union get_optimizer
+              make_optimizer ws_model ws_data mle_fit fit_as_tensor fit_first fit_last par_map ps_slice tensor_slice tolist hypotest mkps ps_getitem
+              patch_metadata patch_ops ps_metadata jupdate ps_apply ps_verify ps_patches patch_name xml_parse path_join jsonpatch_apply writexml
+              patchset bk) =
+         match match read_json patchset with
+               | Ok j => mkps j
+               | Err e => Err e
+               end with
+         | Ok ps =>
+             {|
+               exit_code := 0;
+               stdout :=
+                 String.concat ""
+                   ([((newline ++ "    ") ++ show_nat (Datatypes.length (ps_patches ps)) ++ " patches found in Patchset") ++ newline;
+                     ("---------------------------------" ++ newline) ++ newline] ++ map (fun p : Patch => patch_name p ++ newline) (ps_patches ps));
+               files := []
+             |}
+         | Err _ => {| exit_code := 1; stdout := ""; files := [] |}
+         end.
+Proof. exact tie_cli_patchset_inspect. Qed.
+(* xml2json *)
+Theorem C19_source_is_model_xml2json :
+  forall (E B TL Opt OptCls Conf Model Data Tensor FitR PSpec Slice P PS Patch Mount : Type) (newline : string) (dumps : json -> string)
+           (show_nat : nat -> string) (type_error : E) (read_json : string -> res E json) (mkws : json -> res E json)
+           (ws_prune : json -> list string -> list string -> list string -> list string -> list string -> res E json)
+           (ws_rename : json -> list (string * string) -> list (string * string) -> list (string * string) -> list (string * string) -> res E json)
+           (ws_combine : json -> json -> string -> bool -> res E json) (ws_sorted : json -> res E json) (digest : json -> string -> res E string)
+           (set_backend_named : B -> string -> option string -> B) (set_backend_obj : B -> TL -> Opt -> B) (get_tensorlib : B -> TL)
+           (dict_union : list Conf -> Conf) (get_optimizer : string -> option OptCls) (make_optimizer : OptCls -> Conf -> res E Opt)
+           (ws_model : B -> json -> option string -> option (list json) -> option json -> res E Model) (ws_data : B -> json -> Model -> res E Data)
+           (mle_fit : B -> Data -> Model -> bool -> res E FitR) (fit_as_tensor fit_first fit_last : FitR -> Tensor)
+           (par_map : Model -> list (string * PSpec)) (ps_slice : PSpec -> Slice) (tensor_slice : Tensor -> Slice -> Tensor)
+           (tolist : TL -> Tensor -> json) (hypotest : B -> P -> Data -> Model -> string -> string -> res E (Tensor * list Tensor))
+           (mkps : json -> res E PS) (ps_getitem : PS -> option string -> res E Patch) (patch_metadata patch_ops : Patch -> json)
+           (ps_metadata : PS -> json) (jupdate : json -> json -> json) (ps_apply : PS -> json -> option string -> res E json)
+           (ps_verify : PS -> json -> res E unit) (ps_patches : PS -> list Patch) (patch_name : Patch -> string)
+           (xml_parse : string -> string -> list Mount -> bool -> bool -> res E json) (path_join : string -> string -> string)
+           (jsonpatch_apply : json -> json -> res E json) (writexml : json -> string -> string -> string -> res E string)
+           (entrypoint_xml basedir : string) (mount : list Mount) (output_file : option string) (track_progress validation_as_error : bool) 
+           (bk : B),
+         outcome_of
+           (gen_cli_xml2json E B TL Opt OptCls Conf Model Data Tensor FitR PSpec Slice P PS Patch Mount newline dumps show_nat type_error read_json
+              mkws ws_prune ws_rename ws_combine ws_sorted digest set_backend_named set_backend_obj get_tensorlib dict_union get_optimizer
+              make_optimizer ws_model ws_data mle_fit fit_as_tensor fit_first fit_last par_map ps_slice tensor_slice tolist hypotest mkps ps_getitem
+              patch_metadata patch_ops ps_metadata jupdate ps_apply ps_verify ps_patches patch_name xml_parse path_join jsonpatch_apply writexml
+              entrypoint_xml basedir mount output_file track_progress validation_as_error bk) =
+         run_cmd dumps newline (string * string * list Mount * bool * bool) E (library_xml2json E Mount xml_parse)
+           (entrypoint_xml, basedir, mount, track_progress, validation_as_error) output_file.
+Proof. exact tie_cli_xml2json. Qed.
+(* json2xml: EVERY --patch applied in order, each to the result of the previous one *)
+Theorem C19_source_is_model_json2xml :
+  forall (E B TL Opt OptCls Conf Model Data Tensor FitR PSpec Slice P PS Patch Mount : Type) (newline : string) (dumps : json -> string)
+           (show_nat : nat -> string) (type_error : E) (read_json : string -> res E json) (mkws : json -> res E json)
+           (ws_prune : json -> list string -> list string -> list string -> list string -> list string -> res E json)
+           (ws_rename : json -> list (string * string) -> list (string * string) -> list (string * string) -> list (string * string) -> res E json)
+           (ws_combine : json -> json -> string -> bool -> res E json) (ws_sorted : json -> res E json) (digest : json -> string -> res E string)
+           (set_backend_named : B -> string -> option string -> B) (set_backend_obj : B -> TL -> Opt -> B) (get_tensorlib : B -> TL)
+           (dict_union : list Conf -> Conf) (get_optimizer : string -> option OptCls) (make_optimizer : OptCls -> Conf -> res E Opt)
+           (ws_model : B -> json -> option string -> option (list json) -> option json -> res E Model) (ws_data : B -> json -> Model -> res E Data)
+           (mle_fit : B -> Data -> Model -> bool -> res E FitR) (fit_as_tensor fit_first fit_last : FitR -> Tensor)
+           (par_map : Model -> list (string * PSpec)) (ps_slice : PSpec -> Slice) (tensor_slice : Tensor -> Slice -> Tensor)
+           (tolist : TL -> Tensor -> json) (hypotest : B -> P -> Data -> Model -> string -> string -> res E (Tensor * list Tensor))
+           (mkps : json -> res E PS) (ps_getitem : PS -> option string -> res E Patch) (patch_metadata patch_ops : Patch -> json)
+           (ps_metadata : PS -> json) (jupdate : json -> json -> json) (ps_apply : PS -> json -> option string -> res E json)
+           (ps_verify : PS -> json -> res E unit) (ps_patches : PS -> list Patch) (patch_name : Patch -> string)
+           (xml_parse : string -> string -> list Mount -> bool -> bool -> res E json) (path_join : string -> string -> string)
+           (jsonpatch_apply : json -> json -> res E json) (writexml : json -> string -> string -> string -> res E string)
+           (workspace output_dir specroot dataroot resultprefix : string) (patch : list string) (bk : B),
+         gen_cli_json2xml E B TL Opt OptCls Conf Model Data Tensor FitR PSpec Slice P PS Patch Mount newline dumps show_nat type_error read_json mkws
+           ws_prune ws_rename ws_combine ws_sorted digest set_backend_named set_backend_obj get_tensorlib dict_union get_optimizer make_optimizer
+           ws_model ws_data mle_fit fit_as_tensor fit_first fit_last par_map ps_slice tensor_slice tolist hypotest mkps ps_getitem patch_metadata
+           patch_ops ps_metadata jupdate ps_apply ps_verify ps_patches patch_name xml_parse path_join jsonpatch_apply writexml workspace output_dir
+           specroot dataroot resultprefix patch bk =
+         match read_json workspace with
+         | Ok j =>
+             match apply_patches E read_json jsonpatch_apply j patch with
+             | Ok spec =>
+                 match writexml spec (path_join output_dir specroot) (path_join output_dir dataroot) resultprefix with
+                 | Ok xml =>
+                     Ok
+                       (bk, [],
+                        [MkDir output_dir; MkDir (path_join output_dir specroot); MkDir (path_join output_dir dataroot);
+                         Write (path_join output_dir (resultprefix ++ ".xml")) xml])
+                 | Err e => Err e
+                 end
+             | Err e => Err e
+             end
+         | Err e => Err e
+         end.
+Proof. exact tie_cli_json2xml. Qed.
+
 Print Assumptions C19_every_option_consumed.
 Print Assumptions C19_option_reaches_documented_argument.
 Print Assumptions C19_all_commands_present.
@@ -40,3 +454,16 @@ Print Assumptions C19_multiple_options_accumulate.
 Print Assumptions C19_file_equals_stdout.
 Print Assumptions C19_exit_iff_library_ok.
 Print Assumptions C19_render_key_order_insensitive.
+Print Assumptions C19_source_is_model_fit.
+Print Assumptions C19_source_is_model_cls.
+Print Assumptions C19_source_is_model_prune.
+Print Assumptions C19_source_is_model_rename.
+Print Assumptions C19_source_is_model_combine.
+Print Assumptions C19_source_is_model_digest.
+Print Assumptions C19_source_is_model_sort.
+Print Assumptions C19_source_is_model_patchset_extract.
+Print Assumptions C19_source_is_model_patchset_apply.
+Print Assumptions C19_source_is_model_patchset_verify.
+Print Assumptions C19_source_is_model_patchset_inspect.
+Print Assumptions C19_source_is_model_xml2json.
+Print Assumptions C19_source_is_model_json2xml.
